@@ -295,4 +295,93 @@ theorem nEvents_foldl (o : Opts) (ops : List Op) (hno : ∀ op ∈ ops, isReopen
       rw [this]; simp only [acceptedFrom]
     | reopen => have := hno .reopen (by simp); simp [isReopen] at this
 
+/-! ### Round trip for EVERY option set (histories without reopen): events are numbered by the writer's
+event counter; an event for which no index row exists recorded nothing in any table -/
+
+/-- the file reads back as the list `L`, events numbered by `nEvents` -/
+def RTG (o : Opts) (f : File) (L : List (Nat × Ev)) : Prop :=
+  f.nEvents = L.length ∧ ∀ i c e, L[i]? = some (c, e) → ∀ t, getEvent f i t = expected o c e t
+
+theorem rtg_add_ok {o : Opts} {f : File} {e : Ev} {L : List (Nat × Ev)}
+    (hi : InvG o f) (h : RTG o f L) : RTG o (add o f e none) (L ++ [(f.calls, e)]) := by
+  have hnew := add_ok_cells_gen (e := e) hi.lenc_eq hi.ixle
+  obtain ⟨_, _, _, b4, _⟩ := body_tables (e := e) (b := fullBudget) hi.lenc hi.lenc_eq
+  obtain ⟨hf, _⟩ := body_facts o e f fullBudget
+  rw [add_none]
+  have hget : ∀ i t, getEvent (finishOk (body o e f fullBudget)) i t = getEvent (body o e f fullBudget) i t :=
+    fun _ _ => rfl
+  have hL : L.length = f.nEvents := h.1.symm
+  refine ⟨?_, fun i c e' hi' t => ?_⟩
+  · show (body o e f fullBudget).nEvents + 1 = _
+    rw [hf.nEvents]; simp [hL]
+  · rw [hget]
+    by_cases hlt : i < L.length
+    · rw [List.getElem?_append_left hlt] at hi'
+      rw [← h.2 i c e' hi' t]
+      exact getEvent_congr (hf.cells i (by omega) t) (b4 t) (hi.inb i t)
+    · have hge : L.length ≤ i := Nat.le_of_not_lt hlt
+      rw [List.getElem?_append_right hge] at hi'
+      have hi0 : i - L.length = 0 := by
+        by_cases h0 : i - L.length = 0
+        · exact h0
+        · rw [List.getElem?_eq_none (by simp; omega)] at hi'; cases hi'
+      rw [hi0] at hi'
+      simp at hi'
+      obtain ⟨hc, he⟩ := hi'
+      subst hc; subst he
+      have hig : i = f.nEvents := by omega
+      subst hig
+      rw [getEvent_eq]
+      unfold expected
+      rcases hnew t with ⟨hr, hc, hrows⟩ | ⟨hr, _, ⟨_, hc, _⟩ | ⟨_, hc⟩⟩
+      · rw [hc, hrows, hr]
+        simp only [if_true]
+        have := slice_new (resize (f.rows t) (f.counter t)) ((List.range (e.len t)).map (Row.data f.calls)) []
+        simp only [List.append_nil, resize_length, List.length_map, List.length_range] at this
+        exact this
+      · rw [hc, hr]; simp
+      · rw [hc, hr]; simp
+
+theorem rtg_add_rej {o : Opts} {f : File} {e : Ev} {k : Nat} {L : List (Nat × Ev)}
+    (hi : InvG o f) (h : RTG o f L) : RTG o (add o f e (some (k+1))) L := by
+  rw [add_succ]
+  obtain ⟨_, _, _, b4, _⟩ := body_tables (e := e) (b := k) hi.lenc hi.lenc_eq
+  obtain ⟨hf, _⟩ := body_facts o e f k
+  have hixle := hi.ixle
+  have hcells : ∀ i t, cell (finishRej (body o e f k)) i t = cell f i t := by
+    intro i t
+    rw [cell_finishRej, hf.nEvents]
+    split
+    · exact hf.cells i (by omega) t
+    · exact (cell_of_length_le (by omega) t).symm
+  refine ⟨by show (body o e f k).nEvents = _; rw [hf.nEvents]; exact h.1, fun i c e' hi' t => ?_⟩
+  rw [← h.2 i c e' hi' t]
+  exact getEvent_congr (hcells i t) (b4 t) (hi.inb i t)
+
+theorem rtg_foldl {o : Opts} (ops : List Op) (hno : ∀ op ∈ ops, isReopen op = false) :
+    ∀ f L, InvG o f → RTG o f L → RTG o (ops.foldl (applyOp o) f) (L ++ acceptedFrom f.calls ops) := by
+  induction ops with
+  | nil => intro f L _ h; simpa [acceptedFrom] using h
+  | cons op r ih =>
+    intro f L hi h
+    have hr := ih (fun op' hm => hno op' (List.mem_cons_of_mem _ hm))
+    have h1 : RTG o (applyOp o f op) (L ++ acceptedFrom f.calls [op]) := by
+      cases op with
+      | ok e => exact rtg_add_ok hi h
+      | rejected e k =>
+        simp only [acceptedFrom, List.append_nil]
+        cases k with
+        | zero => exact h
+        | succ k => exact rtg_add_rej hi h
+      | reopen => have := hno .reopen (by simp); simp [isReopen] at this
+    have h2 := hr _ _ (invG_applyOp hi op) h1
+    rw [calls_applyOp] at h2
+    rw [acceptedFrom_cons, ← List.append_assoc]
+    exact h2
+
+theorem rtg_run (o : Opts) (ops : List Op) (hno : ∀ op ∈ ops, isReopen op = false) :
+    RTG o (run o ops) (accepted ops) := by
+  have := rtg_foldl ops hno File.empty [] (InvG.empty o) ⟨rfl, fun i c e h => by simp at h⟩
+  simpa [run, accepted, File.empty] using this
+
 end H5
